@@ -9,7 +9,7 @@ from vcore import (Undecided, Work, build_harness, run_tlc, tlc_stats, tlc_faile
                    run_harness, parallel, read_ndjson, decode_case_line, validate_trace, load_known,
                    write_evidence, save_replay, NCPU)
 
-DEVS = '{"RgPt", "BwRev", "BwOrigin", "WrapSlice"}'
+DEVS = '{"RgPt", "BwRev", "BwOrigin", "WrapSlice", "RepairCp", "RepairJn"}'
 
 # which programs a property owns, which verdicts of those programs it judges,
 # and the rounds per tier: (family, kinds, host lengths, stride, design-checked?)
@@ -49,6 +49,12 @@ PROPS = {
         tiers={"quick": [R("pure", [], [6], 1, purelen=1), R("pure", [], [6], 3, purelen=2)],
                "thorough": [R("pure", [], [6], 1, purelen=2), R("pure", [], [6], 8, mc=False, purelen=3),
                             R("pure", [], [6], 160, mc=False, purelen=4)]}),
+    "C12": dict(
+        owns=lambda kind, op, rule: (op == "repair" or (op == "law" and kind in ("cutsrepair", "reptab")))
+        and rule not in ("order", "extract"),
+        tiers={"quick": [R("cutsrepair", [], [4], 1), R("reptab", [], [4, 5], 1), R("cutsrepair", [], [5], 12, False)],
+               "thorough": [R("cutsrepair", [], [3, 4], 1), R("reptab", [], [3, 4, 5, 6], 1),
+                            R("cutsrepair", [], [5], 1, False), R("cutsrepair", [], [6], 12, False)]}),
     "C10": dict(
         owns=lambda kind, op, rule: rule not in ("order", "extract") and (kind == "cuts" or op in ("delete", "law")),
         tiers={"quick": [R("edit", ["insert", "embed"], [4], 1), R("cuts", [], [4, 5], 1),
